@@ -4,6 +4,7 @@ import (
 	"fmt"
 	"math"
 	"sort"
+	"sync"
 
 	"github.com/blevesearch/bleve/v2/analysis"
 	_ "github.com/blevesearch/bleve/v2/analysis/analyzer/standard"
@@ -389,13 +390,34 @@ func stdAnalyser() analysis.Analyzer {
 // Terms analyses a text the way the index's declared analyser does (bleve's
 // standard analyser is part of the trusted base).
 func Terms(text string) (freq map[string]int, length int) {
+	termsMu.Lock()
+	if c, ok := termsMemo[text]; ok {
+		termsMu.Unlock()
+		return c.freq, c.n
+	}
+	termsMu.Unlock()
 	freq = map[string]int{}
 	ts := stdAnalyser().Analyze([]byte(text))
 	for _, t := range ts {
 		freq[string(t.Term)]++
 	}
+	termsMu.Lock()
+	termsMemo[text] = termsEntry{freq, len(ts)}
+	termsMu.Unlock()
 	return freq, len(ts)
 }
+
+// the reference analyses the same few texts over and over: memoised (callers
+// treat the returned map as read-only)
+type termsEntry struct {
+	freq map[string]int
+	n    int
+}
+
+var (
+	termsMu   sync.Mutex
+	termsMemo = map[string]termsEntry{}
+)
 
 // TextRef is the reference tf-idf state of one text index over the model.
 type TextRef struct {
